@@ -31,6 +31,9 @@ def send_sync_scan(tier, seed):
         for fn in fs:
             if not fn.endswith(".rs"):
                 continue
+            if fn == "verif_hooks.rs":
+                # the hook module (cargo feature verif-hooks): a thread-local training trace, not reachable from Predictor
+                continue
             p = os.path.join(dp, fn)
             text = open(p, errors="replace").read()
             body = text.split("#[cfg(test)]")[0]
